@@ -24,6 +24,7 @@ func init() {
 			{"TAB-ASSOC", 18, ruleTabAssoc},
 			{"TAB-UNARY", 3, ruleTabUnary},
 			{"TAB-MUNCH", 10, ruleTabMunch},
+			{"TAB-MASK", 3, ruleTabMask},
 		},
 	})
 }
@@ -496,4 +497,79 @@ func ruleTabMunch(c *Ctx, r *R) {
 	}
 	r.check(lookups >= 2, "munch-lookups", c.Pos(fd), fmt.Sprintf("%d multi-character lookups into symbols", lookups),
 		"tokenize consults `symbols` for fewer than two multi-character candidates: 2- or 3-character operators are no longer recognised")
+}
+
+// TAB-MASK: inside the header of if/for/switch the parser masks "{" so that the brace
+// opens the block instead of continuing the expression as a composite literal.  A Led
+// handler that goes on parsing at the same bracket level (assignment, comma list, ...)
+// must keep that mask: it either uses doExpression (which leaves the mask alone) or hands
+// p.mask on to Expression.  Only handlers whose own operator opens a bracket — "(", "[",
+// "{" — may start a fresh, unmasked expression.
+func ruleTabMask(c *Ctx, r *R) {
+	rows, err := c.symbolTable()
+	if err != nil {
+		r.undecided("symbols", "-", err.Error())
+		return
+	}
+	var keys []string
+	for k := range rows {
+		keys = append(keys, k)
+	}
+	sort.Strings(keys)
+	n := 0
+	judged := map[*ast.FuncDecl]map[string]bool{}
+	for _, k := range keys {
+		row := rows[k]
+		fn, _ := row.Led.(*types.Func)
+		if fn == nil {
+			continue
+		}
+		fd := c.DeclOf(fn)
+		if fd == nil || fd.Body == nil {
+			continue
+		}
+		opens := k == "(" || k == "[" || k == "{"
+		for _, h := range c.withHelpers(fd) {
+			ast.Inspect(h.Body, func(nd ast.Node) bool {
+				call, ok := nd.(*ast.CallExpr)
+				if !ok || c.CalleeName(call) != "parser.Expression" {
+					return true
+				}
+				n++
+				keeps := false
+				if call.Ellipsis.IsValid() && len(call.Args) >= 2 && strings.HasSuffix(nosp(c.Src(call.Args[len(call.Args)-1])), ".mask") {
+					keeps = true
+				}
+				// after an explicit opening bracket consumed by the handler itself the mask may be reset
+				bracketed := false
+				for _, s := range h.Body.List {
+					if s.Pos() >= call.Pos() {
+						break
+					}
+					ast.Inspect(s, func(q ast.Node) bool {
+						if adv, ok := q.(*ast.CallExpr); ok && c.CalleeName(adv) == "parser.Advance" && len(adv.Args) == 1 {
+							if v, ok := c.ConstString(adv.Args[0]); ok && (v == "(" || v == "[" || v == "{") {
+								bracketed = true
+							}
+						}
+						return true
+					})
+				}
+				if judged[h] == nil {
+					judged[h] = map[string]bool{}
+				}
+				key := "mask " + k + " " + h.Name.Name + "@" + fmt.Sprint(c.Fset.Position(call.Pos()).Line-c.Fset.Position(h.Pos()).Line)
+				if judged[h][key] {
+					return true
+				}
+				judged[h][key] = true
+				r.check(keeps || opens || bracketed, key, c.Pos(call), "the header mask is kept (or the operator opens a bracket)",
+					"the Led handler of \""+k+"\" ("+h.Name.Name+") parses its operand with Expression(...) without handing on p.mask: inside an if/for/switch header the \"{\" that opens the block is taken for a composite literal, so `for ...; i = i + 1 {` (or `p = p.next {`, `i, j = i+1, j-1 {`) is grouped as i + (1{...}) and the valid program is rejected")
+				return true
+			})
+		}
+	}
+	if n < 3 {
+		r.undecided("mask", "-", fmt.Sprintf("only %d Expression calls found in Led handlers", n))
+	}
 }
